@@ -21,7 +21,10 @@ esac
 git apply "$d/patch.diff" || { echo "VERDICT patch-does-not-apply"; exit 1; }
 go build ./... >/dev/null 2>&1 || { echo "VERDICT mutant-does-not-build"; exit 1; }
 go build -tags verif ./... >/dev/null 2>&1 || { echo "VERDICT mutant-does-not-build-verif"; exit 1; }
-if go test -vet=off -count=1 ./... >/tmp/cm/suite.$$ 2>&1; then s=pass; else s=FAIL; fi
+if go test -vet=off -count=1 ./... >/tmp/cm/suite.$$ 2>&1; then s=pass; else
+  # the pinned suite has a rare flake in TestConcurrent (seen on the unchanged tree too): retry once
+  if grep -q -- '--- FAIL: TestConcurrent' /tmp/cm/suite.$$ && [ "$(grep -c -- '^--- FAIL' /tmp/cm/suite.$$)" = "1" ] && go test -vet=off -count=1 ./... >/tmp/cm/suite.$$ 2>&1; then s=pass; else s=FAIL; fi
+fi
 cp "$demo" "$pkgdir/"
 tn=$(grep -o 'func Test[A-Za-z0-9_]*' "$demo" | head -1 | awk '{print $2}')
 if go test -vet=off -count=1 -run "^$tn\$" "./$pkgdir" >/tmp/cm/demo_with.$$ 2>&1; then w=pass; else w=FAIL; fi
